@@ -43,15 +43,7 @@ pub proof fn lemma_lv_double(s: Seq<u64>, n: nat)
     }
 }
 
-// the outcome the property prescribes for converting the number v
-pub open spec fn conv_ok<const BITS: usize, const LIMBS: usize>(r: Result<Uint<BITS, LIMBS>, ToUintError<Uint<BITS, LIMBS>>>, v: nat) -> bool {
-    if v < pow2(BITS as nat) {
-        r is Ok && r->Ok_0.wf() && r->Ok_0.val() == v
-    } else {
-        r is Err && r->Err_0 is ValueTooLarge && r->Err_0->ValueTooLarge_0 == BITS
-            && r->Err_0->ValueTooLarge_1.wf() && r->Err_0->ValueTooLarge_1.val() == v % pow2(BITS as nat)
-    }
-}
+//@ include lib/conv_spec.rs
 
 impl<const BITS: usize, const LIMBS: usize> Uint<BITS, LIMBS> {
 //@ import core LIMBS
